@@ -274,7 +274,11 @@ def gen_item(rng, zeroize_ok=True):
             elif chance(rng, 0.01):
                 bodies.append(metas_body([MList('Zeroize', [MPathM('fqs')])]))
             if len(bodies) == 2 and chance(rng, 0.5):
-                bodies = [metas_body([bodies[0].elems[0], bodies[1].elems[0]])]
+                ms = [bodies[0].elems[0], bodies[1].elems[0]]
+                rng.shuffle(ms)             # `skip(..), Zeroize(fqs)` and `Zeroize(fqs), skip(..)` in one attribute
+                bodies = [metas_body(ms)]
+            elif len(bodies) == 2:
+                rng.shuffle(bodies)
             extra = pick(rng, ['', '', '', '', '#[doc = "f"] ', '#[cfg(all())] '])
             fields.append(Field(member, field_type(rng, tparams, lts, consts), bodies, extra))
         vbodies = []
